@@ -751,6 +751,7 @@ fn tempering_scenarios(out: &mut Out, gen: &mut SplitMix64, thorough: bool) {
         out.count("scen_tempering");
         let tag = format!("tempering:{}:h{}:rep{}:rvb{}:s{}", lat.name, show_f(h), nrep, rvb as u8, seed);
         let snap_all = |tc: &TC| -> Vec<Vec<usize>> { tc.graph_ref().iter().map(|(g, _)| snap_ig(g)).collect() };
+        let mut usable = true;
         for ci in 0..(if thorough { 30 } else { 12 }) {
             let lab = |s: &str| format!("{}:call{}:{}", tag, ci, s);
             // all replicas must keep their occupancy; replica 0's numbers go to the model
@@ -763,6 +764,7 @@ fn tempering_scenarios(out: &mut Out, gen: &mut SplitMix64, thorough: bool) {
                 observe(out, "nopool", &lab("tempering_step"), &mut tc, |tc| snap_ig(&tc.graph_ref()[0].0), |tc| tc.tempering_step())
             };
             if !alive {
+                usable = false; // a replica lost its manager in a panic
                 break;
             }
             out.add("tempering_swaps", tc.get_total_swaps() - swaps_before);
@@ -787,7 +789,7 @@ fn tempering_scenarios(out: &mut Out, gen: &mut SplitMix64, thorough: bool) {
             }
         }
         // rayon version: the worker threads' logs are not visible here; occupancy only
-        {
+        if usable {
             use qmc::sse::parallel_tempering::rayon_tempering::ParallelQmcTimeSteps;
             let before = snap_all(&tc);
             let r = catch(|| {
@@ -987,6 +989,11 @@ fn bc_mode(out: &mut Out, gen: &mut SplitMix64, thorough: bool) {
         let mut problems: Vec<String> = vec![];
         let mut maplen = 0usize;
         let mut had_remove = false;
+        // a panic inside the container (e.g. a stale address after clear) is an oracle failure
+        let seq_seed = gen.next();
+        let res = catch(|| {
+        let mut gen = SplitMix64::new(seq_seed);
+        let gen = &mut gen;
         for _ in 0..len {
             let r = gen.below(10);
             if r < 6 {
@@ -1030,6 +1037,11 @@ fn bc_mode(out: &mut Out, gen: &mut SplitMix64, thorough: bool) {
         }
         m.return_instance(again);
         m.return_instance(held);
+        });
+        if let Err(msg) = res {
+            problems.push(format!("panic in BondContainer after {}: {}", ops.join(","), msg));
+            outs.push("P".into());
+        }
         for (ty, d, clean, _) in verif_log::take() {
             if d == -1 && !clean {
                 problems.push(format!("hook: returned {} not clean", ty));
